@@ -368,7 +368,7 @@ class Interp:
                 v = ("opaque", txt)      # e.g. bitflags constants: only passed around, never inspected
             self.const_cache[key] = v
             return v
-        m = re.match(r"^(?:core::num::<impl )?(\w+)>?::MAX$", txt) or re.match(r"^(\w+)::MAX$", txt)
+        m = re.match(r"^(?:[\w:]*::)?(?:<impl )?(\w+)>?::MAX$", txt) or re.match(r"^(\w+)::MAX$", txt)
         if m and m.group(1) in INT_TY:
             t = m.group(1)
             bits = INT_TY[t]
